@@ -40,7 +40,7 @@ theorem valueOfN_leaf_scalar (enc : Enc) : ∀ (t : Ty), Ty.isScalarTy t = true 
   | .f64, _, f + 1, _, o, l => by simp [valueOfN]
   | .f32, _, f + 1, _, o, l => by simp [valueOfN]
   | .str, _, f + 1, _, o, l => by simp [valueOfN]
-  | .any, _, f + 1, _, o, l => by simp [valueOfN]
+  | .any, _, f + 1, _, o, l => by simp [valueOfN, anyVal, valueOfScalar]
   | .ign, _, f + 1, _, o, l => by simp [valueOfN, valueOfScalar]
   | .en vs, _, f + 1, _, o, l => by simp [valueOfN]
 
